@@ -550,8 +550,9 @@ where
         );
         validate_ratios(resample_ratio, max_resample_ratio_relative)?;
 
+        let last_index = -(POLYNOMIAL_LEN_I / 2) as f64;
         let needed_input_size =
-            (chunk_size as f64 / resample_ratio).ceil() as usize + POLYNOMIAL_LEN_U / 2;
+            Self::calc_needed_len(last_index, chunk_size, resample_ratio, resample_ratio);
         let buffer_channel_length = ((max_resample_ratio_relative + 1.0) * needed_input_size as f64)
             as usize
             + 2 * POLYNOMIAL_LEN_U;
@@ -562,7 +563,7 @@ where
             nbr_channels,
             chunk_size,
             needed_input_size,
-            last_index: -(POLYNOMIAL_LEN_I / 2) as f64,
+            last_index,
             current_buffer_fill: needed_input_size,
             resample_ratio,
             resample_ratio_original: resample_ratio,
@@ -575,14 +576,27 @@ where
     }
 
     fn update_needed_len(&mut self) {
+        self.needed_input_size = Self::calc_needed_len(
+            self.last_index,
+            self.chunk_size,
+            self.resample_ratio,
+            self.target_ratio,
+        );
+    }
+
+    fn calc_needed_len(
+        last_index: f64,
+        chunk_size: usize,
+        resample_ratio: f64,
+        target_ratio: f64,
+    ) -> usize {
         // Input time covered by the next chunk. The step between output frames goes
         // linearly from 1/resample_ratio to 1/target_ratio, reaching it at the last frame.
-        let t_start = 1.0 / self.resample_ratio;
-        let t_end = 1.0 / self.target_ratio;
-        let frames = self.chunk_size as f64;
+        let t_start = 1.0 / resample_ratio;
+        let t_end = 1.0 / target_ratio;
+        let frames = chunk_size as f64;
         let advance = frames * t_start + (t_end - t_start) * (frames + 1.0) / 2.0;
-        self.needed_input_size =
-            (self.last_index + advance + POLYNOMIAL_LEN_U as f64).ceil() as usize;
+        (last_index + advance + POLYNOMIAL_LEN_U as f64).ceil() as usize
     }
 }
 
